@@ -130,18 +130,18 @@ Definition expected_chunks (vars funcs : list str) (vwl fwl : bool) (cs : list c
 
 Definition dump_input := ((list chunk * list str * list str) * (bool * bool))%type.
 Definition run_dump (i : dump_input) : val :=
-  let '((cs, v, f), (vw, fw)) := i in enc (main_run (flat_map snd cs) v f vw fw).
+  let '((cs, v, f), (vw, fw)) := i in enc_d (main_run (flat_map snd cs) v f vw fw).
 Definition spec_dump_ok (i : dump_input) (r : val) : bool :=
-  let '((cs, v, f), (vw, fw)) := i in val_eqb r (VS (expected_chunks v f vw fw cs)).
+  let '((cs, v, f), (vw, fw)) := i in val_eqb r (digest (expected_chunks v f vw fw cs)).
 
 (* ---------------------------------------------------------------- the proved sub-grammar *)
 Definition is_ident (c : N) : bool :=
   ((48 <=? c) && (c <=? 57)) || ((65 <=? c) && (c <=? 90)) || ((97 <=? c) && (c <=? 122)) || (c =? cUS).
-Definition var_name_ok (n : str) : bool := nonempty n && forallb is_ident n.
+Definition var_name_ok (n : str) : bool := nonempty n && forallb is_ident n && negb (starts_with kw_function n).
 Definition fname_char (c : N) : bool :=
   is_ident c || (c =? cMINUS) || (c =? 46) || (c =? 58) || (c =? 43) || (c =? 64).
 Definition func_name_ok (n : str) : bool :=
-  nonempty n && forallb fname_char n && negb (str_eqb n kw_function).
+  nonempty n && forallb fname_char n && negb (starts_with kw_function n).
 
 (* characters bash leaves unquoted in a value, as far as the scanner is concerned *)
 Definition bare_char (c : N) : bool :=
@@ -197,27 +197,33 @@ Definition tok_ok1 (t : tok) : bool :=
    followed by "(" *)
 Fixpoint no_eq_before_stop (s : str) : bool :=
   match s with
-  | [] => true
+  | [] => false
   | c :: r => if envvar_stop c then true else if c =? cEQ then false else no_eq_before_stop r
+  end.
+Fixpoint first_nonblank (t : str) : option N :=
+  match t with
+  | [] => None
+  | d :: t' => if isblank d then first_nonblank t' else Some d
   end.
 Fixpoint word_then (s : str) : option N :=   (* the first character after the leading word and blanks *)
   match s with
   | [] => None
-  | c :: r => if name_stop c then (fix blanks (t : str) : option N :=
-                                     match t with
-                                     | [] => None
-                                     | d :: t' => if isblank d then blanks t' else Some d
-                                     end) s
-              else word_then r
+  | c :: r => if name_stop c then first_nonblank s else word_then r
+  end.
+(* the two strings differ at a position both have *)
+Fixpoint diverges (w s : str) : bool :=
+  match w, s with
+  | a :: w', b :: s' => if a =? b then diverges w' s' else true
+  | _, _ => false
   end.
 Definition stmt_start_ok (text : str) : bool :=
   match text with
   | [] => false
   | c :: _ =>
       negb (isspace c) && negb (c =? cHASH) && negb (c =? cRB) && negb (c =? cNUL)
-      && negb (starts_with kw_function text)
+      && diverges kw_function text
       && no_eq_before_stop text
-      && match word_then text with Some d => negb (d =? cLP) | None => true end
+      && match word_then text with Some d => negb (d =? cLP) | None => false end
   end.
 
 Definition stmt_ok (s : stmt) (following : str) : bool :=
